@@ -93,6 +93,45 @@ def gen(rng, tier):
         yield {"k": "unpack", "ty": ty, "old": {"st": [oldv, {"i": "0"}]}, "from": cfg, "copts": [], "uopts": uopts, "strictErr": False,
                "_tag": "unpack/prefilled-invalid/" + kind, "_nt": True,
                "_sig": "prefinv|%s|%s|%s|%s|%s|%s" % (kind, pol_tag, elem_struct, badpos is not None, mention, uopts[0]["o"] if uopts else "")}
+    # null settings inside lists and maps: the element the null stands for (a zero value, whatever a nil pointer is replaced
+    # by) is part of the result and has to satisfy the validators declared inside it
+    nrng = rng.fork("null-elements")
+    for _ in range(n // 6):
+        S_ = TG.T("struct", f=[{"n": "A", "tag": "a", "v": nrng.pick(["required", "min=1", "nonzero", "positive", ""]), "ty": TG.T(nrng.pick(["int", "string", "float64", "uint8"]))},
+                               {"n": "B", "tag": "b", "v": "", "ty": TG.T("string")}])
+        if S_["f"][0]["ty"]["t"] == "string" and S_["f"][0]["v"] in ("min=1", "positive"):
+            S_["f"][0]["v"] = "required"
+        def good():
+            return M([("a", TG.good_scalar(nrng, S_["f"][0]["ty"]["t"], S_["f"][0]["v"])[1]), ("b", S("x"))])
+        ek = nrng.pick(["S", "ptrS", "ptrArr", "ptrSlice", "arr", "ptrptrArr", "ptrInt", "sliceS"])
+        ety = {"S": S_, "ptrS": TG.T("ptr", e=S_), "ptrArr": TG.T("ptr", e=TG.T("array", n=1 + nrng.below(2), e=S_)),
+               "ptrSlice": TG.T("ptr", e=TG.T("slice", e=S_)), "arr": TG.T("array", n=1, e=S_),
+               "ptrptrArr": TG.T("ptr", e=TG.T("ptr", e=TG.T("array", n=1, e=S_))),
+               "ptrInt": TG.T("ptr", e=TG.T("int")), "sliceS": TG.T("slice", e=S_)}[ek]
+        def el(nullp):
+            if nrng.chance(nullp):
+                return None
+            if ek in ("S", "ptrS"): return good()
+            if ek in ("ptrSlice", "sliceS"): return A([good() for _ in range(nrng.below(3))])
+            if ek == "ptrInt": return U(3)
+            return None if ek in ("ptrArr", "ptrptrArr") else A([good()])
+        ck = nrng.pick(["slice", "map", "array", "field"])
+        if ck == "slice":
+            fty = TG.T("slice", e=ety); setting = A([el(0.5) for _ in range(1 + nrng.below(3))])
+        elif ck == "array":
+            k = 1 + nrng.below(2)
+            fty = TG.T("array", n=k, e=ety); setting = A([el(0.5) for _ in range(k)])
+        elif ck == "map":
+            fty = TG.T("map", e=ety); setting = M([("k%d" % i, el(0.5)) for i in range(1 + nrng.below(3))])
+        else:
+            fty = ety; setting = el(0.7)
+        ty = TG.T("struct", f=[{"n": "L", "tag": "l", "v": "", "ty": fty}, {"n": "Z", "tag": "", "v": "", "ty": TG.T("int")}])
+        old = None
+        if nrng.chance(0.3):
+            old = TG.rand_value(nrng, ty)
+        yield {"k": "unpack", "ty": ty, "old": old, "from": M([("l", setting), ("z", U(1))]), "copts": [], "uopts": [], "strictErr": False,
+               "_tag": "unpack/null-elements/" + ck, "_nt": True,
+               "_sig": "nullel|%s|%s|%s|%s|%s" % (ck, ek, S_["f"][0]["v"], S_["f"][0]["ty"]["t"], "old" if old else "zero")}
     # named types with Validate / InitDefaults methods next to their method-less twins
     crng = rng.fork("catalog")
     for _ in range(n // 4):
